@@ -73,7 +73,19 @@ def run(ctx, chk):
                 rep = tup[3][0] if tup[0] == 'agg' and tup[3] else None
                 qterm = psi.T('call', qef['callee'], qn, *qef['args'])
                 from_query = rep is not None and contains(rep, qterm)
-                stale = rep is not None and any(x[0] == 'sym' and str(x[1]).startswith('loop:') for x in psi.walk(rep))
+                def loop_syms_outside_query(v):
+                    # (the receiver of the query itself may be loop-carried -- the poller object held in a closure's
+                    # environment: what matters is data that does not come from this iteration's reply)
+                    if v == qterm:
+                        return False
+                    if v[0] == 'sym':
+                        return str(v[1]).startswith('loop:')
+                    if v[0] == 't':
+                        return any(loop_syms_outside_query(a) for a in v[2] if isinstance(a, tuple) and a and a[0] in ('t', 'sym', 'agg', 'ref'))
+                    if v[0] == 'agg':
+                        return any(loop_syms_outside_query(a) for a in v[3])
+                    return False
+                stale = rep is not None and loop_syms_outside_query(rep)
                 chk.ob('C12.O4', 'poll:report-is-the-reply-to-this-query', from_query and not stale, info['sends'][0][1]['site'][2],
                        'the report shipped with this as-of is %s%s' % (fmt(rep)[:120] if rep is not None else None,
                            '' if from_query and not stale else ' -- not the reply to the query that followed this iteration\'s clock read: '
